@@ -32,7 +32,8 @@ Definition empty (x : acct) : bool := (a_nonce x =? 0) && (a_bal x =? 0).
 
 Inductive op :=
 | OSetNonce (a n : N) | OAddBal (a amt : N) | OSetState (a k v : N) | OSuicide (a : N) | OCreate (a : N)
-| OSnap | ORevert (id : nat) | OFinalise.
+| OSnap | ORevert (id : nat)
+| OFinalise (del : bool).   (* Finalise / IntermediateRoot / Commit with deleteEmptyObjects = del *)
 
 (* ---------- copy semantics ---------- *)
 Record cstate := mkC { c_w : world; c_dirty : list N; c_snaps : list (nat * (world * list N)); c_next : nat }.
@@ -55,9 +56,9 @@ Fixpoint find_snap {A} (l : list (nat * A)) (id : nat) : option A :=
   | (j, x) :: t => if Nat.eqb j id then Some x else find_snap t id
   end.
 
-Definition finalise_world (w : world) (d : list N) : world :=
+Definition finalise_world (del : bool) (w : world) (d : list N) : world :=
   fold_left (fun w a => match wget w a with
-                        | Some x => if a_sui x || empty x then wset w a None else w
+                        | Some x => if a_sui x || (del && empty x) then wset w a None else w
                         | None => w
                         end) d w.
 
@@ -90,7 +91,7 @@ Definition c_step (s : cstate) (o : op) : cstate :=
     | Some (w, d) => mkC w d (drop_snaps (c_snaps s) id) (c_next s)
     | None => s                                  (* the code panics: excluded by the harness *)
     end
-  | OFinalise => mkC (finalise_world (c_w s) (c_dirty s)) [] [] (c_next s)
+  | OFinalise del => mkC (finalise_world del (c_w s) (c_dirty s)) [] [] (c_next s)
   end.
 Definition c_run (ops : list op) : cstate := fold_left c_step ops c0.
 
@@ -170,7 +171,7 @@ Definition j_step (s : jstate) (o : op) : jstate :=
     | Some n => let '(w, jl) := revert_to (j_w s) (j_journal s) n in mkJ w jl (drop_snaps (j_revs s) id) (j_next s)
     | None => s
     end
-  | OFinalise => mkJ (finalise_world (j_w s) (dirties (j_journal s))) [] [] (j_next s)
+  | OFinalise del => mkJ (finalise_world del (j_w s) (dirties (j_journal s))) [] [] (j_next s)
   end.
 Definition j_run (ops : list op) : jstate := fold_left j_step ops j0.
 
